@@ -628,6 +628,7 @@ class Tracer:
         self.nextid = 0
         self.enabled = False
         self.sem_inflight = {}   # api host -> number of do_request holders
+        self.harness_errors = []  # exceptions raised inside the harness's own doubles
 
     def new_item(self, kind, arg):
         self.nextid += 1
@@ -741,11 +742,38 @@ def run_case(case, outdir, log_trace=True):
             conf.config.add_section("fetch")
         conf.config["fetch"][opt] = str(val)
 
+    import inspect
+
+    def call_args(real, *a, **k):
+        """Arguments of a call to a harness double, named as the REAL method names them (the doubles
+        accept whatever the code passes -- a new keyword must not break them)."""
+        try:
+            return inspect.signature(real).bind(*a, **k).arguments
+        except TypeError:
+            return dict(k)
+
+    def double(name):
+        """An exception raised inside a harness double is the harness's failure, reported as such."""
+        def deco(f):
+            def g(*a, **k):
+                try:
+                    return f(*a, **k)
+                except Exception as e:                      # noqa: BLE001  (GreenletExit / Hang pass)
+                    tr.harness_errors.append("harness double %s failed: %s: %s" % (name, type(e).__name__, str(e)[:300]))
+                    raise
+            g.__name__ = getattr(f, "__name__", name)
+            return g
+        return deco
+
+    real_fetch = sapi.MwApi._fetch
+
     class SynthApi(sapi.MwApi):
-        def _fetch(self, url, max_retries=0, initial_delay=1, backoff_factor=2, method="GET",
-                   data=None, headers=None, max_delay=None, jitter=0.0):
+        @double("SynthApi._fetch")
+        def _fetch(self, url, *args, **kw):
+            got = call_args(real_fetch, self, url, *args, **kw)
+            method, data = got.get("method", "GET"), got.get("data")
             host = "shared" if str(self.apiurl).startswith(SHARED_HOST) else "local"
-            if method.upper() == "POST":
+            if str(method).upper() == "POST":
                 qs = data.decode("utf-8") if isinstance(data, bytes) else data
             else:
                 qs = parse.urlparse(url).query
@@ -771,7 +799,7 @@ def run_case(case, outdir, log_trace=True):
         def raise_for_status(self):
             pass
 
-        def iter_bytes(self, chunk_size=16384):
+        def iter_bytes(self, *a, **k):
             title = None
             for t, img in sw.images.items():
                 if sw.thumb_url(img) == self.url:
@@ -785,25 +813,35 @@ def run_case(case, outdir, log_trace=True):
                 yield data[k:k + 16]
 
     class FakeClient:
-        def stream(self, method, url):
+        def stream(self, method, url, *a, **k):
             return FakeResponse(url)
 
-    class TraceFsOutput(fetch.FsOutput):
-        def write_expanded_page(self, title, name_space, txt, revid=None):
-            tr.op("wexp", title, revid or 0)
-            return super().write_expanded_page(title, name_space, txt, revid=revid)
+    RealFsOutput = fetch.FsOutput
 
-        def write_pages(self, data):
+    class TraceFsOutput(RealFsOutput):
+        @double("TraceFsOutput.write_expanded_page")
+        def write_expanded_page(self, *a, **k):
+            got = call_args(RealFsOutput.write_expanded_page, self, *a, **k)
+            tr.op("wexp", got.get("title"), got.get("revid") or 0)
+            return super().write_expanded_page(*a, **k)
+
+        @double("TraceFsOutput.write_pages")
+        def write_pages(self, *a, **k):
+            data = call_args(RealFsOutput.write_pages, self, *a, **k).get("data") or {}
             tr.op("wpages", sorted(p.get("title", "") for p in data.get("pages", {}).values() if p.get("revisions")))
-            return super().write_pages(data)
+            return super().write_pages(*a, **k)
 
-        def set_db_key(self, name, key, value):
-            tr.op("db", name, str(key))
-            return super().set_db_key(name, key, value)
+        @double("TraceFsOutput.set_db_key")
+        def set_db_key(self, *a, **k):
+            got = call_args(RealFsOutput.set_db_key, self, *a, **k)
+            tr.op("db", got.get("name"), str(got.get("key")))
+            return super().set_db_key(*a, **k)
 
-        def write_redirects(self, redirects):
-            tr.op("wredir", sorted([k, v] for k, v in redirects.items()))
-            return super().write_redirects(redirects)
+        @double("TraceFsOutput.write_redirects")
+        def write_redirects(self, *a, **k):
+            red = call_args(RealFsOutput.write_redirects, self, *a, **k).get("redirects") or {}
+            tr.op("wredir", sorted([x, y] for x, y in red.items()))
+            return super().write_redirects(*a, **k)
 
     def host_of(api):
         return "shared" if str(getattr(api, "apiurl", "")).startswith(SHARED_HOST) else "local"
@@ -977,6 +1015,8 @@ def run_case(case, outdir, log_trace=True):
         result["stderr"] = f.read()[-4000:]
     os.unlink(stderr_path)
     result["events"] = tr.events
+    result["harness_errors"] = tr.harness_errors
+    result["reached_init"] = any(e["op"] == "init" for e in tr.events)
     result["requests"] = sw.requests
     result["released"] = net.released
     result["leaked_title_mapping"] = dict(fetch.Fetcher.title_mapping)
